@@ -246,3 +246,42 @@ def run_relabel(job):
     if a.cis_energies is not None:
         out["cis"] = float((a.cis_energies - b.cis_energies).abs().max())
     return out
+
+
+def run_md(job):
+    """A few BOMD steps (real electronic structure, supplied velocities seeded per molecule, periodic COM removal) of a batch;
+    returns the end point per molecule so that a molecule in a batch can be compared with the same molecule alone."""
+    import os
+    import zlib
+
+    mdlib.use_stub(False)
+    from harness import common
+
+    common.quiet_stdio()
+    from .mdlib import MDmod
+
+    params = mdlib.seqm_params(scf_eps=1.0e-10, scf_converger=[1])
+    names = [job["mols"][i] for i in job.get("order", range(len(job["mols"])))]
+    mol = scf_driver.make(names, params, pad_coord=job.get("pad_coord", 0.0), extra_pad=job.get("extra_pad", 0), displace=0.05)
+    mol.verbose = False
+    v = torch.zeros_like(mol.coordinates)
+    for k, nm in enumerate(names):
+        n = len(scf_driver.MOLS[nm][0])
+        g = torch.Generator().manual_seed(31 + zlib.crc32(nm.encode()) % 100000)
+        v[k, :n] = 0.01 * (torch.rand((n, 3), generator=g, dtype=torch.float64) - 0.5)
+    mol.velocities = v
+    os.makedirs(job["workdir"], exist_ok=True)
+    out = {"molid": [], "prefix": os.path.join(job["workdir"], "md"), "print every": 0, "checkpoint every": 0, "xyz": 0, "h5": {}}
+    eng = job.get("engine", "basic")
+    kw = dict(seqm_parameters=params, timestep=0.4, Temp=0.0, output=out)
+    md = MDmod.Molecular_Dynamics_Basic(**kw) if eng == "basic" else MDmod.XL_BOMD(xl_bomd_params={"k": 3}, damp=None, **kw)
+    rk = {}
+    if job.get("com"):
+        rk["remove_com"] = (job["com"][0], int(job["com"][1]))
+    md.run(mol, steps=int(job.get("steps", 4)), **rk)
+    res = {}
+    for k, nm in enumerate(names):
+        n = len(scf_driver.MOLS[nm][0])
+        res[nm] = {"x": [float(c) for c in mol.coordinates[k, :n].reshape(-1)], "v": [float(c) for c in mol.velocities[k, :n].reshape(-1)],
+                   "pad_v": float(mol.velocities[k, n:].abs().max()) if mol.velocities.shape[1] > n else 0.0}
+    return res
